@@ -13,10 +13,10 @@ import random
 
 from lib import common as C
 
-# Opt-in scenario (default off, see the finding reported with it): unions issued DIRECTLY AFTER clear() with no
-# barrier-containing call in between.  On the unchanged tree a rank that leaves clear() early can have its new unions
-# handled by a rank that is still inside clear()'s barrier and wipes them afterwards (clear() = barrier; local clear, with
-# no closing barrier).  Failures of such scripts get the signature prefix "dset-clear-race".
+# Scenario (on by default since D9 was repaired in /repo): unions issued DIRECTLY AFTER clear() with no barrier-containing
+# call in between.  Before the repair a rank that left clear() early could have its new unions handled by a rank still
+# inside clear()'s barrier, which wiped them afterwards (clear() = barrier; local clear, with no closing barrier).  The
+# symptoms of that race in such scripts get the signature prefix "dset-clear-race".
 POST_CLEAR_NOBARRIER = os.environ.get("C17_POST_CLEAR_NOBARRIER", "1") == "1"
 
 META = {
@@ -30,7 +30,9 @@ META = {
             "path splitting never separates items (sameTree_mono) and at quiescence connected items share a root (complete); #merges + "
             "num_sets = size, callbacks = exec merges, callback edges join distinct trees and form a forest; representatives are members. "
             "clear() is a step enabled only at quiescence (it starts with a barrier) that re-establishes the initial invariant: afterwards size = "
-            "num_sets = 0 and later connectivity equals the graph of the unions issued since (clear_resets, connectivity_after_clear).",
+            "num_sets = 0 and later connectivity equals the graph of the unions issued since (clear_resets, connectivity_after_clear). "
+            "The runs also cover one process using two communicators of different size (the same script on MPI_Comm_split sub-communicators "
+            "before/after the world run) and two disjoint_set objects of the same type alive on one communicator, each judged independently.",
     "note": "Trusted: Lean kernel + propext/Classical.choice/Quot.sound; the hand-written model DSet.lean, tied to disjoint_set_impl.hpp by "
             "exact FIFO replay on one rank and by invariants/partition comparison on the explored multi-rank schedules; handler atomicity "
             "(C08) and exactly-once delivery (C01) are assumptions of the model; all_compress is modelled only by its effect "
@@ -38,7 +40,11 @@ META = {
             "overflow ignored (needs 2^32767 items).",
 }
 
-RULE = ("a case = (union script with 0..2 clear() calls, layout, routing, buffer, policy, sim seed); unions issued directly before a clear() "
+RULE = ("two-communicator / two-container dimension: a quarter of the multi-rank cases run the same script (same function, same template "
+        "instantiations) on sub-communicators of another size built with MPI_Comm_split (parity of the rank, last rank vs. the rest, or one per node) BEFORE the world "
+        "run (some: after), each colour group judged by the same oracle on its fewer ranks; every fifth case keeps a second disjoint_set<int64_t> "
+        "alive on the same communicator with its own script interleaved token by token, each container judged independently against its own oracle and "
+        "model run. a case = (union script with 0..2 clear() calls, layout, routing, buffer, policy, sim seed, comm mode, #containers); unions issued directly before a clear() "
         "(no barrier in between, possibly by one rank only) must be completed by it and must not survive it; after clear(): size = num_sets = 0 and the "
         "reference union-find restarts; non-trivial = at least one root merge happened; 1-rank cases are "
         "compared state-by-state with the model under FIFO, multi-rank cases by oracle + Lean invariant evaluation + partition comparison")
@@ -217,20 +223,41 @@ def run_real(binary, case):
         env["YGM_COMM_ROUTING"] = case["routing"]
     if case.get("buffer") is not None:
         env["YGM_COMM_BUFFER_SIZE_KB"] = case["buffer"]
-    return C.run_sim(binary, case["tokens"], nodes=nodes, ppn=ppn, env=env, sim_seed=case["sim_seed"],
+    mtok = "M:" + case.get("mode", "w") + (":2" if case.get("two") else "")
+    return C.run_sim(binary, [mtok] + list(case["tokens"]), nodes=nodes, ppn=ppn, env=env, sim_seed=case["sim_seed"],
                      policy=case["policy"], want_log=False, timeout=120, max_steps=120000, livelock=60000)
 
 
-def parse_outs(sr, nranks):
+def sub_groups(mode, nranks, ppn=None):
+    """world ranks of every colour group of the sub-communicator split the harness performs (key = world rank)"""
+    kind = mode.split(":")[1] if ":" in mode else "p"
+    ppn = ppn or nranks
+    col = (lambda r: r % 2) if kind == "p" else ((lambda r: r // ppn) if kind == "n" else (lambda r: 0 if r < nranks - 1 else 1))
+    g = {}
+    for r in range(nranks):
+        g.setdefault(col(r), []).append(r)
+    return [g[k] for k in sorted(g)]
+
+
+def parse_outs(sr, ranks, run="w", cid=0):
     """-> dict with dumps[id] = [(item, rank, parent, on_rank)], n[id] = [(numsets,size) per rank],
     finds[id] = [(item, rep, on_rank)], fq[id] = [(asked, returned)], foralls[id] = [(item, rep, on_rank)],
     cbs = [(epoch, a, b, clears-returned-on-that-rank)]"""
     o = {"dumps": {}, "n": {}, "finds": {}, "fq": {}, "foralls": {}, "cbs": [], "ended": 0}
-    for r in range(nranks):
-        for l in sr.outs.get(r, []):
+    if isinstance(ranks, int):
+        ranks = range(ranks)
+    tag, tag0 = f"@{run}.{cid}", f"@{run}.0"
+    for r, wr in enumerate(ranks):      # r = rank within the judged communicator
+        for l in sr.outs.get(wr, []):
             w = l.split()
-            if not w:
+            if len(w) < 2:
                 continue
+            if w[0] == tag0 and w[1] == "end":
+                o["ended"] += 1
+                continue
+            if w[0] != tag:
+                continue
+            w = w[1:]
             if w[0] == "d":
                 o["dumps"].setdefault(int(w[1]), []).append((int(w[2]), int(w[3]), int(w[4]), r))
             elif w[0] == "n":
@@ -243,8 +270,6 @@ def parse_outs(sr, nranks):
                 o["foralls"].setdefault(int(w[1]), []).append((int(w[2]), int(w[3]), r))
             elif w[0] == "c":
                 o["cbs"].append((int(w[1]), int(w[2]), int(w[3]), int(w[4]) if len(w) > 4 else 0))
-            elif w[0] == "end":
-                o["ended"] += 1
     return o
 
 
@@ -266,6 +291,8 @@ def model_tokens(script, nranks):
             toks += ["B", "F:" + ",".join(map(str, sorted(known)))]   # the ranks together ask for every known item
         elif st[0] == "forall":
             toks += ["B", "A"]
+        elif st[0] == "barrier":
+            toks.append("B")        # a barrier-containing call on the OTHER container of the same communicator
         elif st[0] == "clear":
             toks += ["B", "D", "K"]
             labels.append(("preclear", st[1]))
@@ -563,6 +590,20 @@ def corr_multi(res, case, script, o, summaries, mline, labels, checks):
 
 # ------------------------------------------------------------------ one case end to end
 
+def interleave(rnd, ta, tb):
+    """random merge of two token lists keeping each list's order; tb's tokens address container 1"""
+    out, i, j = [], 0, 0
+    while i < len(ta) or j < len(tb):
+        take_a = j >= len(tb) or (i < len(ta) and rnd.random() < len(ta) / float(len(ta) + len(tb)))
+        if take_a:
+            k = min(len(ta) - i, rnd.choice([1, 1, 2, 4]))
+            out += ta[i:i + k]; i += k
+        else:
+            k = min(len(tb) - j, rnd.choice([1, 1, 2, 4]))
+            out += ["1/" + t for t in tb[j:j + k]]; j += k
+    return out
+
+
 def make_case(rnd, idx, one_rank, big):
     if one_rank:
         layout, routing, buffer_, policy = (1, 1), None, None, "uniform"
@@ -573,19 +614,53 @@ def make_case(rnd, idx, one_rank, big):
         policy = POLICIES[idx % 5]
     nranks = layout[0] * layout[1]
     script = gen_script(rnd, nranks, big)
+    tokens = script["tokens"]
+    # new dimensions (deterministic in the case index, recorded in the case): a quarter of the multi-rank cases run the
+    # same script on a sub-communicator of another size first (or afterwards); every fifth case keeps a second
+    # disjoint_set of the same type alive on the same communicator with its own interleaved script
+    mode = "w"
+    if not one_rank and idx % 4 == 1:
+        # only splits that keep the ranks per node uniform (ygm::layout assumes it): one node -> parity or last-vs-rest;
+        # several nodes -> one sub-communicator per node, or parity when the node size is even
+        if layout[0] == 1:
+            kind = "p" if (idx // 4) % 2 == 0 else "l"
+        else:
+            kind = "p" if (layout[1] % 2 == 0 and (idx // 4) % 2 == 0) else "n"
+        mode = ("sw" if (idx // 4) % 3 != 2 else "ws") + ":" + kind
+    two = idx % 5 == 2
+    if two:
+        other = gen_script(rnd, nranks, False)
+        tokens = interleave(rnd, tokens, other["tokens"])
     case = {"layout": list(layout), "routing": routing, "buffer": buffer_, "policy": policy, "sim_seed": rnd.randrange(1, 10 ** 6),
-            "tokens": script["tokens"], "model_seed": rnd.randrange(1, 10 ** 9)}
+            "tokens": tokens, "model_seed": rnd.randrange(1, 10 ** 9), "mode": mode, "two": two}
     return case, script
 
 
-def script_from_tokens(tokens):
-    """rebuild the step structure from harness tokens (used by replay and by the shrinker)"""
+BARRIER_TOKENS = ("B", "D", "N", "F", "A", "K")
+
+
+def script_from_tokens(tokens, cid=0, nranks=None):
+    """the step structure of container `cid` from the harness tokens (tokens of the other container are prefixed "1/"):
+    its own operations, plus ("barrier",) wherever the other container performs a barrier-containing call.  Unions named
+    for a rank >= nranks (a sub-communicator run) are not issued by anybody."""
     steps, ops, kinds = [], [], set()
     universe = set()
     for t in tokens:
+        tc = 0
+        if len(t) > 2 and t[1] == "/":
+            tc, t = int(t[0]), t[2:]
         f = t.split(":")
+        if tc != cid:
+            if f[0] in BARRIER_TOKENS:
+                if ops:
+                    steps.append(("ops", ops)); ops = []
+                if not (steps and steps[-1][0] == "barrier"):
+                    steps.append(("barrier",))
+            continue
         if f[0] in ("u", "x"):
             r = f[1] if f[1] == "*" else int(f[1])
+            if nranks is not None and r != "*" and r >= nranks:
+                continue
             ops.append((f[0], r, int(f[2]), int(f[3])))
             kinds.add(f[0])
             universe.update((int(f[2]), int(f[3])))
@@ -600,6 +675,8 @@ def script_from_tokens(tokens):
             steps.append(("forall", int(f[1])))
         elif f[0] == "K":
             steps.append(("clear", sum(1 for x in steps if x[0] == "clear")))
+        elif f[0] == "B":
+            steps.append(("barrier",))
     if ops:
         steps.append(("ops", ops))
     km = "x" if kinds == {"x"} else ("u" if kinds == {"u"} else "mixed")
@@ -623,18 +700,59 @@ def model_call(lines):
 
 
 def evaluate(binary, case, script, model_ok, res):
-    """runs the real code + model on one case and fills res; returns (status, merged?)"""
+    """runs the real code + model on one case and fills res; returns (status, merged?).  The step structure is always
+    rebuilt from case["tokens"] (per container, per communicator); `script` is only used for statistics by the caller."""
     before = len(res.oracle_failures)
-    out = _evaluate(binary, case, script, model_ok, res)
-    st_kinds = [st[0] for st in script["steps"]]
-    if any(a == "clear" and b == "ops" for a, b in zip(st_kinds, st_kinds[1:])):
+    out = _evaluate(binary, case, model_ok, res)
+    racy = False
+    for cid in ((0, 1) if case.get("two") else (0,)):
+        st_kinds = [st[0] for st in script_from_tokens(case["tokens"], cid)["steps"]]
+        racy = racy or any(a == "clear" and b == "ops" for a, b in zip(st_kinds, st_kinds[1:]))
+    if racy:
+        # label the symptoms of D9 (unions issued right after clear() lost / mixed with the wiped segment); other failures
+        # of such scripts keep their plain signature
         for f in res.oracle_failures[before:]:
-            if not f["signature"].startswith("dset-clear-race"):
+            if not f["signature"].startswith("dset-clear-race") and ("after-clear" in f["signature"] or "parent-missing" in f["signature"]):
                 f["signature"] = "dset-clear-race unions-right-after-clear " + f["signature"]
     return out
 
 
-def _evaluate(binary, case, script, model_ok, res):
+def judge(res, case, sr, ranks, run, cid, model_ok):
+    """one container on one communicator: oracle, and (world run) the model comparison"""
+    ranks = list(ranks)
+    n = len(ranks)
+    script = script_from_tokens(case["tokens"], cid, n)
+    o = parse_outs(sr, ranks, run, cid)
+    where = dict(case, judged={"run": "world" if run == "w" else "sub-communicator", "ranks": ranks, "container": cid})
+    pre = len(res.oracle_failures)
+    summaries = oracle_run(res, where, script, o, n)
+    for f in res.oracle_failures[pre:]:
+        if run != "w":
+            f["signature"] += " [sub-communicator run]"
+            f["what"] = f"sub-communicator of world ranks {ranks}: " + f["what"]
+        if cid:
+            f["signature"] += " [second container]"
+            f["what"] = "second container: " + f["what"]
+    merged = any(s["nroots"] < len(s["ent"]) for s in summaries)
+    if model_ok and run == "w":
+        mt, labels = model_tokens(script, n)
+        lines = []
+        if n == 1:
+            lines.append("run fifo 0 " + " ".join(mt))
+        else:
+            lines.append(f"run rand {case['model_seed'] + cid} " + " ".join(mt))
+            nonempty = [s for s in summaries if s["ent"]]
+            for s in nonempty:
+                lines.append("check " + " ".join(f"{x}:{v[0]}:{v[1]}" for x, v in sorted(s["ent"].items())))
+        out = model_call(lines)
+        if n == 1:
+            corr_fifo(res, where, script, o, summaries, out[0], labels)
+        else:
+            corr_multi(res, where, script, o, summaries, out[0], labels, list(zip([s["id"] for s in nonempty], out[1:])))
+    return merged
+
+
+def _evaluate(binary, case, model_ok, res):
     nranks = case["layout"][0] * case["layout"][1]
     sr = run_real(binary, case)
     cl = classify_verdict(sr)
@@ -647,29 +765,19 @@ def _evaluate(binary, case, script, model_ok, res):
             return "foreign", False
         fail(res, f"real run did not complete: {sr.verdict}", sig, case, {"stderr": (sr.stderr or "")[-400:]})
         return "failed", False
-    o = parse_outs(sr, nranks)
-    if o["ended"] != nranks:
-        fail(res, "not every rank reached the end of the script", "dset-run-incomplete", case)
+    mode = case.get("mode", "w")
+    groups = sub_groups(mode, nranks, case["layout"][1]) if mode != "w" else []
+    if parse_outs(sr, nranks, "w", 0)["ended"] != nranks or any(parse_outs(sr, g, "s", 0)["ended"] != len(g) for g in groups) \
+            or sum(1 for r in range(nranks) if "done" in sr.outs.get(r, [])) != nranks:
+        fail(res, "not every rank reached the end of the script on every communicator", "dset-run-incomplete", case)
         return "failed", False
     before = len(res.oracle_failures)
-    summaries = oracle_run(res, case, script, o, nranks)
-
-    merged = any(s["nroots"] < len(s["ent"]) for s in summaries)
-    if model_ok:
-        mt, labels = model_tokens(script, nranks)
-        lines = []
-        if nranks == 1:
-            lines.append("run fifo 0 " + " ".join(mt))
-        else:
-            lines.append(f"run rand {case['model_seed']} " + " ".join(mt))
-            nonempty = [s for s in summaries if s["ent"]]
-            for s in nonempty:
-                lines.append("check " + " ".join(f"{x}:{v[0]}:{v[1]}" for x, v in sorted(s["ent"].items())))
-        out = model_call(lines)
-        if nranks == 1:
-            corr_fifo(res, case, script, o, summaries, out[0], labels)
-        else:
-            corr_multi(res, case, script, o, summaries, out[0], labels, list(zip([s["id"] for s in nonempty], out[1:])))
+    merged = False
+    cids = (0, 1) if case.get("two") else (0,)
+    for cid in cids:
+        merged = judge(res, case, sr, range(nranks), "w", cid, model_ok) or merged
+        for g in groups:      # the same script on fewer ranks: the oracle applies unchanged
+            judge(res, case, sr, g, "s", cid, False)
     return ("ok" if len(res.oracle_failures) == before else "violated"), merged
 
 
@@ -726,6 +834,8 @@ def run(tier, seed, model_ok=True):
         res.count(f"policy={case['policy']}")
         res.count(f"kind={script['kindmode']}")
         res.count(f"clears={script.get('clears', 0)}")
+        res.count("comm=" + case.get("mode", "w").split(":")[0] + ("" if case.get("mode", "w") == "w" else "/" + case["mode"].split(":")[1]))
+        res.count("containers=" + ("2" if case.get("two") else "1"))
         for f in script["families"]:
             res.count("family=" + f)
         if st in ("ok", "violated"):
@@ -794,7 +904,7 @@ def shrink(binary, failure, model_ok):
         i = 0
         while i < len(toks) and budget > 0:
             cand = toks[:i] + toks[i + chunk:]
-            if not any(t.startswith("D") for t in cand):
+            if not any("D:" in t for t in cand):
                 i += chunk
                 continue
             budget -= 1
